@@ -19,7 +19,7 @@ var guardedFields = []string{
 	"Client.exited", "Client.address", "Client.runner", "Client.client", "Client.protocol", "Client.doneCtx", "Client.ctxCancel",
 	"Client.negotiatedVersion", "Client.processKilled", "Client.unixSocketCfg", "Client.launched",
 	"MuxBroker.streams",
-	"GRPCBroker.clientStreams", "GRPCBroker.serverStreams",
+	"GRPCBroker.clientStreams", "GRPCBroker.serverStreams", "GRPCBroker.listeners",
 	"grpcmux.GRPCClientMuxer.acceptListeners",
 	"grpcmux.GRPCServerMuxer.acceptChannels",
 	"managedClients",
@@ -28,7 +28,7 @@ var guardedFields = []string{
 }
 
 // optionalFields may be absent (introduced by a repair).
-var optionalFields = map[string]bool{"Client.launched": true}
+var optionalFields = map[string]bool{"Client.launched": true, "GRPCBroker.listeners": true}
 
 // guardReadExceptions: "function|field" -> happens-before reason for an unlocked READ.
 var guardReadExceptions = map[string]string{
